@@ -510,11 +510,22 @@ class CryptographyEngine(api.CryptographicEngine):
             )
 
         # Encrypt the plain text
-        cipher = ciphers.Cipher(algorithm, mode, backend=default_backend())
-        encryptor = cipher.encryptor()
-        if auth_additional_data is not None:
-            encryptor.authenticate_additional_data(auth_additional_data)
-        cipher_text = encryptor.update(plain_text) + encryptor.finalize()
+        try:
+            cipher = ciphers.Cipher(
+                algorithm,
+                mode,
+                backend=default_backend()
+            )
+            encryptor = cipher.encryptor()
+            if auth_additional_data is not None:
+                encryptor.authenticate_additional_data(auth_additional_data)
+            cipher_text = encryptor.update(plain_text) + encryptor.finalize()
+        except Exception as e:
+            self.logger.exception(e)
+            raise exceptions.CryptographicFailure(
+                "An error occurred while encrypting the data. See the "
+                "server log for more information."
+            )
 
         result = {'cipher_text': cipher_text}
         if return_iv_nonce:
@@ -849,11 +860,22 @@ class CryptographyEngine(api.CryptographicEngine):
                 mode = mode()
 
         # Decrypt the plain text
-        cipher = ciphers.Cipher(algorithm, mode, backend=default_backend())
-        decryptor = cipher.decryptor()
-        if auth_additional_data is not None:
-            decryptor.authenticate_additional_data(auth_additional_data)
-        plain_text = decryptor.update(cipher_text) + decryptor.finalize()
+        try:
+            cipher = ciphers.Cipher(
+                algorithm,
+                mode,
+                backend=default_backend()
+            )
+            decryptor = cipher.decryptor()
+            if auth_additional_data is not None:
+                decryptor.authenticate_additional_data(auth_additional_data)
+            plain_text = decryptor.update(cipher_text) + decryptor.finalize()
+        except Exception as e:
+            self.logger.exception(e)
+            raise exceptions.CryptographicFailure(
+                "An error occurred while decrypting the data. See the "
+                "server log for more information."
+            )
 
         # Unpad the plain text if needed (separate methods for testing
         # purposes)
@@ -861,12 +883,18 @@ class CryptographyEngine(api.CryptographicEngine):
                 enums.BlockCipherMode.CBC,
                 enums.BlockCipherMode.ECB
         ]:
-            plain_text = self._handle_symmetric_padding(
-                self._symmetric_key_algorithms.get(decryption_algorithm),
-                plain_text,
-                padding_method,
-                undo_padding=True
-            )
+            try:
+                plain_text = self._handle_symmetric_padding(
+                    self._symmetric_key_algorithms.get(decryption_algorithm),
+                    plain_text,
+                    padding_method,
+                    undo_padding=True
+                )
+            except ValueError as e:
+                self.logger.exception(e)
+                raise exceptions.CryptographicFailure(
+                    "The decrypted data does not have valid padding."
+                )
 
         return plain_text
 
